@@ -562,7 +562,7 @@ def accepting(fe, verdict):
     return verdict in V2_ACCEPT if fe == 'v2' else bool(V1_TRUTH.get(verdict, False))
 
 
-def spec_allowed(case, i, strict):
+def spec_allowed(case, i, strict, enforce=None):
     """allowed final outcomes of Interest i, computed from the history by the property statement alone: a small
     nondeterministic automaton per Interest (waiting -> validating -> finished) that looks only at this Interest's
     own parameters and at the events.  Returns a list of outcome patterns (None = any value).
@@ -600,8 +600,8 @@ def spec_allowed(case, i, strict):
                 if c[0] == 'W':
                     if e[1] == 'd' and e[2] < len(case['datas']) and spec_matches(spec, case['datas'][e[2]], e[2]):
                         d = case['datas'][e[2]]['content']
-                        for enforce in ((True,) if strict else (True, False)):
-                            nxt.extend(timers(('V', d, t + spec['lat'], enforce), t))
+                        for enf in (enforce if enforce is not None else ((True,) if strict else (True, False))):
+                            nxt.extend(timers(('V', d, t + spec['lat'], enf), t))
                     elif e[1] == 'n' and e[2] == spec['name'] and e[3] == spec['dig']:
                         nxt.append(('F', ['nack', e[4], t]))
                     elif (e[1] == 'c' and e[2] == i) or e[1] == 's':
@@ -642,7 +642,7 @@ def _fits(out, pat):
     return len(out) == len(pat) and all(p is None or p == o for o, p in zip(out, pat))
 
 
-def oracle_common(case, impl, strict):
+def oracle_common(case, impl, strict, enforce=None):
     fe = case['fe']
     if impl['loop_errors']:
         return f"internal error escaped a callback: {impl['loop_errors'][0][0]}"
@@ -654,7 +654,7 @@ def oracle_common(case, impl, strict):
     tie = case.get('tie')
     if tie is None:
         for i, out in enumerate(impl['ints']):
-            allowed = spec_allowed(case, i, strict)
+            allowed = spec_allowed(case, i, strict, enforce)
             if not any(_fits(out, p) for p in allowed):
                 return f'Interest {i} finished with {out} but the history allows only {allowed}'
         # nothing about a finished Interest remains pending
